@@ -67,7 +67,11 @@ def canon(x):
         )
     if isinstance(x, (list, tuple)):
         return tuple(canon(e) for e in x)
-    return x
+    if x is None or isinstance(x, (str, int, float, bool, bytes)):
+        return x
+    # a slot value of a type the specification does not provide for (a set, a
+    # dict view, ...): keep it distinguishable from every legal value and hashable
+    return ("!foreign-slot-value", type(x).__name__, repr(x))
 
 
 def canon_coord(x):
@@ -88,7 +92,11 @@ def canon_coord(x):
         )
     if isinstance(x, (list, tuple)):
         return tuple(canon_coord(e) for e in x)
-    return x
+    if x is None or isinstance(x, (str, int, float, bool, bytes)):
+        return x
+    # a slot value of a type the specification does not provide for (a set, a
+    # dict view, ...): keep it distinguishable from every legal value and hashable
+    return ("!foreign-slot-value", type(x).__name__, repr(x))
 
 
 def first_diff(a, b, path=()):
